@@ -104,3 +104,159 @@ def chunk_end_rule(rep, u, fname="http_data_decode_chunked"):
                                          "the cursor stays on the CRLF after the chunk data, the next size line is empty (= 0 = last chunk): "
                                          "'5 hello 6 world 0' decodes to 'hello' with success")
     return 1
+
+
+# ------------------------------------------------------------------ R-LIMIT: pointer cursor against a pointer limit
+# (the label walkers of dns.h keep a byte cursor and an end pointer; the relational interpreter does not track reads
+# through a cursor derived from a struct pointer, so the clause is decided structurally)
+
+def _lin_ptr(fn, e, depth=0):
+    from props import c17
+    return c17._lin(fn, e, depth)
+
+
+def cursor_limit_rule(rep, u, rel="include/proto/dns.h"):
+    """For every function of the file that walks a buffer with a pointer cursor C compared against a pointer limit L:
+       (a) L is base + size for a (pointer, size) parameter pair - not cursor + size with the cursor already advanced;
+       (b) every read through C inside a loop (a dereference, or a library copy of n constant bytes from C) is preceded in the
+           same iteration by a comparison of C with L that leaves when fewer than n bytes remain, with no advance of C between
+           the comparison and the read."""
+    from rules import r_mpt, r_range
+    n = 0
+    for fn in u.function_list:
+        if fn.relfile() != rel or not fn.has_cfg or fn.name.endswith("self_test"):
+            continue
+        loops = fn.loops()
+        if not loops:
+            continue
+        ptr_locals = {}
+        for pos, root, x, ps in fn.nodes():
+            if core.is_ref(x) and x.get("dk") == "local" and (u.type(x["t"]) or {}).get("k") == "ptr":
+                ptr_locals[x["id"]] = x["n"]
+        # limits: pointer locals assigned exactly once, outside every loop, from pointer + integer
+        in_loop = set().union(*loops.values())
+        assigns = {}
+        for pos, root, x, ps in fn.nodes():
+            if x.get("k") == "bin" and x["op"] == "=" and core.is_ref(core.strip_casts(x["x"])) and core.strip_casts(x["x"]).get("id") in ptr_locals:
+                assigns.setdefault(core.strip_casts(x["x"])["id"], []).append((pos, x))
+        limits = {}
+        for vid, lst in assigns.items():
+            if len(lst) == 1 and lst[0][0][0] not in in_loop:
+                rhs = core.strip_casts(lst[0][1]["y"])
+                if rhs.get("k") == "bin" and rhs["op"] == "+":
+                    limits[vid] = lst[0]
+        if not limits:
+            continue
+        # cursors: pointer locals compared with a limit inside a loop and dereferenced there
+        for lid, (lpos, lasg) in sorted(limits.items()):
+            cursors = set()
+            for bid in in_loop:
+                c = fn.blocks[bid].cond
+                if c is None:
+                    continue
+                ids = core.ref_ids(c)
+                if lid in ids:
+                    cursors |= {i for i in ids if i in ptr_locals and i != lid and i not in limits}
+            for cid in sorted(cursors):
+                cname, lname = ptr_locals[cid], ptr_locals[lid]
+                # (a) the limit
+                pparams = {p["n"] for p in fn.params if (u.type(p["t"]) or {}).get("k") == "ptr"}
+                iparams = {p["n"] for p in fn.params if (u.type(p["t"]) or {}).get("k") == "int"}
+                lf = _lin_ptr(fn, lasg["y"])
+                # a cursor with several definitions stays symbolic in the linear form: resolve the one that reaches the limit
+                if lf is not None and cname in lf:
+                    cdefs = [x_ for p_, x_ in assigns.get(cid, []) if fn.pos_dominates(p_, lpos)]
+                    if cdefs:
+                        cf = _lin_ptr(fn, cdefs[-1]["y"])
+                        if cf is not None:
+                            k_ = lf.pop(cname)
+                            for a_, v_ in cf.items():
+                                lf[a_] = lf.get(a_, 0) + k_ * v_
+                n += 1
+                rep.functions.add(fn.name)
+                inst = "limit:%s" % lname
+                desc = "%s: %s is the end of the caller's buffer (pointer parameter + size parameter)" % (fn.name, lname)
+                if lf is None:
+                    rep.undecided("R-LIMIT", fn, inst, desc, "limit %s is not linear" % key(lasg["y"])[:50])
+                else:
+                    nz = {a_: v_ for a_, v_ in lf.items() if v_}
+                    bases = [a_ for a_ in nz if a_ in pparams]
+                    sizes = [a_ for a_ in nz if a_ in iparams]
+                    if len(bases) == 1 and len(sizes) == 1 and len(nz) == 2 and all(v_ == 1 for v_ in nz.values()):
+                        rep.proved("R-LIMIT", fn, inst, desc, "%s = %s + %s" % (lname, bases[0], sizes[0]))
+                    else:
+                        rep.violated("R-LIMIT", fn, inst, desc, "%s = %s, i.e. %s: the walk may run %s past the end of the message (a name whose labels end at the last byte "
+                                     "is followed into the bytes behind it)" % (lname, key(lasg["y"])[:40], " + ".join("%s*%s" % (v_, a_) if v_ != 1 else a_ for a_, v_ in sorted(nz.items())),
+                                                                                "+".join(a_ for a_ in nz if a_ not in bases[:1] and a_ not in sizes[:1]) or "bytes"), lasg.get("ln"))
+                # (b) the reads
+                advances = [p_ for p_, r_, x_, ps_ in fn.nodes() if p_[0] in in_loop and cid in r_range.direct_writes_of(x_) and x_.get("k") in ("bin", "un")]
+                checks = [b for b in in_loop if fn.blocks[b].cond is not None and {cid, lid} <= core.ref_ids(fn.blocks[b].cond)]
+                reads = []
+                for p_, r_, x_, ps_ in fn.nodes():
+                    if p_[0] not in in_loop:
+                        continue
+                    if x_.get("k") == "un" and x_["op"] == "*" and core.is_ref(core.strip_casts(x_["e"])) and core.strip_casts(x_["e"]).get("id") == cid:
+                        if any(q.get("k") == "bin" and q["op"] == "=" and core.strip_casts(q["x"]) is x_ for q in ps_):
+                            continue                       # a store through the cursor: not this rule
+                        reads.append((p_, x_, 1))
+                    elif x_.get("k") == "call" and x_.get("fn") in ("memcpy", "memmove", "__builtin___memcpy_chk", "__builtin_memcpy") and len(x_["args"]) >= 3:
+                        s_ = core.strip_casts(x_["args"][1])
+                        if core.is_ref(s_) and s_.get("id") == cid and const_val(x_["args"][2]) is not None:
+                            reads.append((p_, x_, const_val(x_["args"][2])))
+                for rpos, rx, ext in reads:
+                    n += 1
+                    inst = "read-inside:%s@%s" % (cname, _read_ordinal(reads, rpos))
+                    desc = "%s: the read of %d byte(s) at %s is preceded in the same iteration by a test against %s" % (fn.name, ext, cname, lname)
+                    good = None
+                    for b in checks:
+                        if not fn.pos_dominates((b, len(fn.blocks[b].elems) - 1), rpos):
+                            continue
+                        # no advance of the cursor between the test and the read
+                        mid = fn.reach_from([b]) & {q for q in fn.reachable_blocks() if rpos[0] in fn.reach_from([q]) or q == rpos[0]}
+                        if any(a_[0] in mid and a_[0] != b and not (a_[0] == rpos[0] and a_[1] > rpos[1]) and not _loops_back(fn, a_[0], b, rpos[0]) for a_ in advances):
+                            continue
+                        # with ext - 1 bytes left the test must leave
+                        c = fn.blocks[b].cond
+                        L0 = 0x10000
+                        env = {}
+                        for y, _ in _walk(c):
+                            if core.is_ref(y) and y.get("id") == cid:
+                                env[id(y)] = L0 - (ext - 1)
+                            elif core.is_ref(y) and y.get("id") == lid:
+                                env[id(y)] = L0
+                        try:
+                            v = r_mpt.eval_expr(c, env)
+                        except r_mpt.Unknown:
+                            continue
+                        blk = fn.blocks[b]
+                        s_ = blk.succ[0] if v else blk.succ[1]
+                        if s_ is None or rpos[0] not in fn.reach_from([s_], avoid=[b]):
+                            good = c
+                            break
+                    if good is not None:
+                        rep.proved("R-LIMIT", fn, inst, desc, key(good)[:50])
+                    else:
+                        rep.violated("R-LIMIT", fn, inst, desc, "no test of %s against %s covers this read: with the cursor at the end of the message (a label run that ends "
+                                     "exactly at msg_size, or a compression pointer cut after its first byte) the byte(s) behind the buffer are read" % (cname, lname), rx.get("ln"))
+    return n
+
+
+def _read_ordinal(reads, rpos):
+    return 1 + sorted(p_ for p_, _x, _e in reads).index(rpos)
+
+
+def _loops_back(fn, ablock, check, rblock):
+    """the advance lies on the way round the loop (after the read, before the next test), not between test and read"""
+    return rblock in fn.reach_from([check], avoid=[ablock]) and ablock not in _between(fn, check, rblock)
+
+
+def _between(fn, a, b):
+    """blocks on some path from a to b that does not pass through a again"""
+    fwd = fn.reach_from([a], avoid=[])
+    out = set()
+    for q in fwd:
+        if q == a:
+            continue
+        if b == q or b in fn.reach_from([q], avoid=[a]):
+            out.add(q)
+    return out
